@@ -25,6 +25,7 @@
                    table state, i.e. at construction and after every SetPhaseOffset
      RoundTrip     Demodulate(Modulate(i)) = i
      ModulateLaw   i < M: the point of label i;  i >= M: ValueError, nothing is emitted
+     CopyIsEqual   Copy(how): a pickled / copied / deep-copied object has the same table and scale (hence the same laws)
      EarlierResultsUnchanged   a second Modulate call (Modulate2) leaves the result of the first, still held by
                    the caller, as it was (frame law; a rejected second call changes nothing either)
      MLLaw         what Demodulate returned is THE nearest point by the definition
@@ -219,11 +220,20 @@ Demodulate(r) ==
                  idx |-> [c \in DOMAIN ss |-> IF ps[c] = 0 THEN -1 ELSE inv[ps[c]] - 1]]
   /\ UNCHANGED <<st, g, tab, inv, scale, off, held>>
 
+\* a copy of the object (pickle round trip, copy.copy, copy.deepcopy) is the same modulator: same table, same scale
+QamNatTab(gg) == [i \in 1..gg.m |-> QamAt(gg, (i - 1) \div gg.lx, (i - 1) % gg.lx)]
+Copy(how) ==
+  /\ TableState
+  /\ ret' = [op |-> "copy", how |-> how, scalec |-> scale,
+             tabc |-> IF Dev.CopyRebuildsNatural /\ Kind = "QAM" /\ how # "copy.copy" THEN QamNatTab(g) ELSE tab]
+  /\ UNCHANGED <<st, g, tab, inv, scale, off, held>>
+CopyAny == TableState /\ \E how \in {"pickle", "copy.copy", "copy.deepcopy"} : Copy(how)
+
 SetPhaseOffsetAny == TableState /\ \E j \in 1..NOff : SetPhaseOffset(j)
 ModulateAny   == TableState /\ \E i \in ModIdx : Modulate(i)
 Modulate2Any  == st = "ok" /\ ret.op = "mod" /\ \E j \in ModIdx2 : Modulate2(j)
 DemodulateAny == TableState /\ \E r \in RowIds : Demodulate(r)
-Next == ConstructAny \/ SetPhaseOffsetAny \/ ModulateAny \/ Modulate2Any \/ DemodulateAny
+Next == ConstructAny \/ SetPhaseOffsetAny \/ ModulateAny \/ Modulate2Any \/ DemodulateAny \/ CopyAny
 
 (* ------------------------------------- properties ------------------------------------------- *)
 Rejects == st # "none" => ((st = "rejected") <=> ~Supported(Kind, g.m))
@@ -244,6 +254,9 @@ RoundTrip == TableState =>
 ModulateLaw == (st = "ok" /\ ret.op = "mod") =>
   IF ret.i < M THEN ret.out = "ok" /\ ret.pt = tab[ret.i + 1]
   ELSE ret.out = "raised:ValueError" /\ ret.pt = <<>>
+
+\* frame law: an object that went through pickle / copy / deepcopy satisfies the same laws because it IS the same table
+CopyIsEqual == (st = "ok" /\ ret.op = "copy") => (ret.tabc = tab /\ ret.scalec = scale /\ GrayAdjacent(g, ret.tabc))
 
 \* frame law (results stay results): what was handed out by an earlier call still holds the points it held when
 \* it was returned, so demodulating it still gives the indexes it was made from
@@ -270,7 +283,7 @@ Lemmas == TableState =>
 
 TypeOK == /\ st \in {"none", "ok", "rejected"}
           /\ off \in 0..NOff
-          /\ ret.op \in {"none", "construct", "setoff", "mod", "demod"}
+          /\ ret.op \in {"none", "construct", "setoff", "mod", "demod", "copy"}
 
 (* -------------------------------------- emission -------------------------------------------- *)
 \* nearest COORDINATE per sample: <<x, y>> (lattice; <<0, 0>> = tie, never a point of an even grid)
